@@ -15,7 +15,7 @@ PROPS = ("C09",)
 
 def plan(tier, seed):
     specs = ec.plan_e2e(seed, 9, MIX, 180 if tier == "quick" else 2000, nwcap=12 if tier == "quick" else 24)
-    if tier == \"thorough\":
+    if tier == "thorough":
         specs += ec.fixture_specs()
     return specs
 
